@@ -1,11 +1,15 @@
 import LcmProofs.SimPanel
+import LcmProofs.Targets
+import LcmProps.Examples
 namespace Lcm
 
 /-! # C13 — the simulation result is a complete, correctly indexed panel
 
 Model: `simulate` returns one list of records per period; `panel` (`_process_simulated_data`) concatenates
 them period-major; `MultiIndex.from_product([range(T), range(n)])` enumerates (t, i) in the same order, so
-row `t * n + i` carries the index (t, i). Additional targets are evaluated per row by `callF` (op `eval_funcs`). -/
+row `t * n + i` carries the index (t, i). Additional targets (`_compute_targets`) are `targetColumns`: one column per
+requested name, every cell the by-name evaluation `evalAt` (= `callF`; driver op `eval_funcs`) of that model function at the
+row's states, choices, `_period` and the parameters. -/
 
 /-- exactly `n_periods * n_agents` rows -/
 theorem C13_rows (m : Model) (P : Params) (V : List (Tensor Ext)) (init : List (List (Name × Rat)))
@@ -43,5 +47,83 @@ theorem C13_row_content (m : Model) (P : Params) (V : List (Tensor Ext))
       = agentDecision m P (groups m) t (simNext m P V t) (statesAt m P V init draws t) i := by
   rw [simulate_getD m P V init draws t ht]
   exact periodOut_record_getD m P V draws t _ i (by rw [statesAt_length]; exact hi)
+
+/-! ## additional targets -/
+
+/-- a target column has exactly `n_periods * n_agents` entries -/
+theorem C13_target_rows (m : Model) (P : Params) (V : List (Tensor Ext)) (init : List (List (Name × Rat)))
+    (draws : Draws) (name : Name) :
+    (targetColumn m P (simulate m P V init draws true) name).length = m.nPeriods * init.length :=
+  targetColumn_length m P V init draws name
+
+/-- **entry (t, i) of a target column is that model function evaluated at the row's states, choices, period and the
+parameters** (function arguments that are themselves model functions are computed from the same row) -/
+theorem C13_target_cell (m : Model) (P : Params) (V : List (Tensor Ext)) (init : List (List (Name × Rat)))
+    (draws : Draws) (name : Name) (t i : Nat) (ht : t < m.nPeriods) (hi : i < init.length) :
+    (targetColumn m P (simulate m P V init draws true) name)[t * init.length + i]?
+      = (((simulate m P V init draws true).getD t [])[i]?).map fun r =>
+          callF m P m.fuel (toEnv (r.states ++ r.choices) ++ periodEnv t) name :=
+  targetColumn_row m P V init draws name t i ht hi
+
+/-- the column of a target depends neither on which other targets are requested nor on their order -/
+theorem C13_target_set_irrelevant (m : Model) (P : Params) (results : List (List Record)) (names names' : List Name)
+    (n : Name) (hn : n ∈ names) (hn' : n ∈ names') :
+    ((targetColumns m P results names).find? (·.1 == n)).map (·.2)
+      = ((targetColumns m P results names').find? (·.1 == n)).map (·.2) := by
+  rw [targetColumns_lookup m P results names n hn, targetColumns_lookup m P results names' n hn']
+
+/-- the variables of the row are read by name: their order (the column order of the frame) is irrelevant -/
+theorem C13_target_reads_row_by_name (m : Model) (P : Params) (row row' : List (Name × Rat)) (hp : row.Perm row')
+    (hnd : (row.map (·.1)).Nodup) (t : Nat) (name : Name) : evalAt m P row t name = evalAt m P row' t name :=
+  evalAt_perm m P row row' hp hnd t name
+
+/-- **constraint targets**: in every row whose value is not `-inf`, every constraint requested as a target evaluates
+to true - the reported choices are feasible, and the target column says so (hypothesis: the names of the agent's
+states and of the choices are pairwise distinct) -/
+theorem C13_constraint_targets_hold (m : Model) (P : Params) (t : Nat)
+    (next : Option (Tensor Ext × List (List (Name × Rat)))) (states : List (List (Name × Rat)))
+    (i : Nat) (hi : i < states.length)
+    (hst : ((states.getD i []).map (·.1) ++ m.choices.map (·.1)).Nodup)
+    (hfin : (agentDecision m P (groups m) t next states i).value ≠ .ninf)
+    (n : Name) (hn : n ∈ constraintNames m) :
+    ∃ v, targetCell m P t (agentDecision m P (groups m) t next states i) n = some v ∧ v.toBool = true := by
+  obtain ⟨q, _, hq⟩ := agentDecision_obj_at_row m P t next states i hi hst hfin
+  have := uAndF_true_constraints m P (groups m) t next _ q hq
+  exact allTrue_true_all m P _ _ this n hn
+
+/-- **the `utility` target of the last period is the value column**: with no continuation, the value of a row is the
+utility evaluated at the row -/
+theorem C13_last_period_utility_target_is_value (m : Model) (P : Params) (t : Nat)
+    (states : List (List (Name × Rat))) (i : Nat) (hi : i < states.length)
+    (hst : ((states.getD i []).map (·.1) ++ m.choices.map (·.1)).Nodup)
+    (hfin : (agentDecision m P (groups m) t none states i).value ≠ .ninf) :
+    ∃ q : Rat, (agentDecision m P (groups m) t none states i).value = .fin q ∧
+      (targetCell m P t (agentDecision m P (groups m) t none states i) "utility").map Val.toRat = some q := by
+  obtain ⟨q, hv, hq⟩ := agentDecision_obj_at_row m P t none states i hi hst hfin
+  exact ⟨q, hv, uAndF_none_utility m P (groups m) t _ q true hq⟩
+
+/-- **a deterministic-transition target is the state column one period later**: state `x` of agent `i` in period
+`t+1` is the target `next_x` of row (t, i) (hypothesis: the transition functions feed pairwise distinct states) -/
+theorem C13_transition_target_is_next_state (m : Model) (P : Params) (V : List (Tensor Ext))
+    (init : List (List (Name × Rat))) (draws : Draws) (t i : Nat) (hi : i < init.length)
+    (nf : FunctionInfo) (hnf : nf ∈ (functionInfo m).filter (·.isNext)) (hdet : nf.isStochasticNext = false)
+    (hnd : (((functionInfo m).filter (·.isNext)).map fun nf => stripNext nf.name).Nodup)
+    (hx : stripNext nf.name ∈ m.states.map (·.1)) :
+    (((statesAt m P V init draws (t + 1)).getD i []).find? (·.1 == stripNext nf.name)).map (·.2)
+      = some (((targetCell m P t ((periodOut m P V draws t (statesAt m P V init draws t)).1.getD i default)
+          nf.name).map Val.toRat).getD 0) :=
+  next_state_is_transition_target m P V init draws t i hi nf hnf hdet hnd hx
+
+-- non-vacuity / pinned numbers: the consumption example, two agents, all three kinds of target
+private def exSim := simulate Ex.consModel Ex.consParams (solve Ex.consModel Ex.consParams) [[("w", 2)], [("w", 1)]] (fun _ _ _ _ => 0)
+#guard (exSim.map fun recs => recs.map fun r => (r.value, r.states, r.choices))
+  == [[(.fin (55/16), [("w", 2)], [("d", 1), ("c", 1)]), (.fin (39/16), [("w", 1)], [("d", 1), ("c", 1)])],
+      [(.fin (19/8), [("w", 1)], [("d", 1), ("c", 1)]), (.fin (3/8), [("w", 0)], [("d", 1), ("c", 0)])],
+      [(.fin (1/4), [("w", 0)], [("d", 1), ("c", 0)]), (.fin (1/4), [("w", 0)], [("d", 1), ("c", 0)])]]
+#guard targetColumn Ex.consModel Ex.consParams exSim "budget_constraint" == List.replicate 6 (some (.bool true))
+#guard (targetColumn Ex.consModel Ex.consParams exSim "utility").drop 4 == [some (.num (1/4)), some (.num (1/4))]
+#guard targetColumn Ex.consModel Ex.consParams exSim "next_w"
+  == [some (.num 1), some (.num 0), some (.num 0), some (.num 0), some (.num 0), some (.num 0)]
+example : ((([("w", (2 : Rat))] : List (Name × Rat)).map (·.1)) ++ Ex.consModel.choices.map (·.1)).Nodup := by decide
 
 end Lcm
